@@ -96,6 +96,14 @@ func oddities() []oddity {
 	add("quota: child with a larger max than its parent", okFlow, quota(child("    strategy:\n      fixed_window:\n        max: 500\n        interval: 10\n        interval_unit: second\n")))
 	add("quota: child limiter flow on the child quota", one(flowWith("f", "h.com/c/*", "  L:\n    processor: Limiter\n    parameters:\n      - key: quota_id\n        value: C\n", f(startTo, "L")+f(condEnd, "L", "below_limit")+f(condEnd, "L", "above_limit"), "")), quota(child("    strategy:\n      fixed_window:\n        max: 2\n        interval: 10\n        interval_unit: second\n")))
 	add("quota: percentage allocation above 100", okFlow, quota("quotas:\n  - id: Q\n    filter:\n      url: h.com/*\n    strategy:\n      fixed_window:\n        max: 5\n        interval: 10\n        interval_unit: second\n        group_by_header: x-g\n        allocation:\n          percentage: 150\n"))
+	lim3 := func(id, parent, url string) string {
+		return "  - id: " + id + "\n    parent_id: " + parent + "\n    filter:\n      url: " + url + "\n    strategy:\n      fixed_window:\n        max: 2\n        interval: 10\n        interval_unit: second\n"
+	}
+	add("quota: three levels, parents declared first (control)", okFlow, quota(goodQuota+"internal_limits:\n"+lim3("C", "Q", "h.com/c/*")+lim3("G", "C", "h.com/c/g/*")))
+	add("quota: three levels, the sub-limit declared before the limit it hangs from", okFlow, quota(goodQuota+"internal_limits:\n"+lim3("G", "C", "h.com/c/g/*")+lim3("C", "Q", "h.com/c/*")))
+	add("quota: two internal limits that are each other's parent", okFlow, quota(goodQuota+"internal_limits:\n"+lim3("C", "G", "h.com/c/*")+lim3("G", "C", "h.com/c/g/*")))
+	add("quota: three levels out of order with a limiter on the deepest one", one(flowWith("f", "h.com/c/g/*", "  L:\n    processor: Limiter\n    parameters:\n      - key: quota_id\n        value: G\n", f(startTo, "L")+f(condEnd, "L", "below_limit")+f(condEnd, "L", "above_limit"), "")),
+		quota(goodQuota+"internal_limits:\n"+lim3("G", "C", "h.com/c/g/*")+lim3("C", "Q", "h.com/c/*")))
 	add("quota: not yaml", okFlow, quota("quotas: [unclosed\n"))
 	add("quota: empty file", okFlow, quota(""))
 	add("quota: unreferenced concurrent quota (system flows) and no user flow", map[string]string{}, quota("quotas:\n  - id: Q\n    filter:\n      url: h.com/*\n    strategy:\n      concurrent:\n        max_request_count: 1\n"))
